@@ -38,7 +38,7 @@ def run(ctx):
     cov_part(ctx, q)
 
 
-def eexec_layouts(ctx, q, only=None, how_prefix=""):
+def eexec_layouts(ctx, q, only=None, how_prefix="", count=False):
     """MC_Eexec layouts replayed into the library; `only` keeps the disagreements of some plaintexts
     (used by C03 for stop inside a section and by C11 for the limits inside a section)."""
     d = ctx.specdir()
@@ -50,9 +50,10 @@ def eexec_layouts(ctx, q, only=None, how_prefix=""):
     ctx.tlc("MC_Eexec", cfg, label="eexec-layouts", timeout=1200)
     total = None
     for k in range(1 if q else 4):
-        summ = ctx.vh_json("replay-eexec", "-base", os.path.join(d, base), "-seed", ctx.seed + k, os.path.join(d, out))
+        summ = ctx.vh_json("replay-eexec", *(("-count",) if count else ()), "-base", os.path.join(d, base), "-seed", ctx.seed + k,
+                           os.path.join(d, out))
         if only is not None:
-            keep = tuple("plaintext#%d " % p for p in only)
+            keep = tuple(("plaintext#%d " % p) if isinstance(p, int) else p for p in only)
             summ["by_sig"] = {s: n for s, n in (summ.get("by_sig") or {}).items() if any(x in s for x in keep)}
             summ["disagreements"] = [g for g in (summ.get("disagreements") or []) if any(x in g["sig"] for x in keep)]
         pscommon.absorb(ctx, summ, how_prefix + "vh replay-eexec (seed %d)" % (ctx.seed + k), "MC_Eexec / PSMachine!ExecOp eexec")
